@@ -133,6 +133,16 @@ func NewGamma(seed int64, tokens []string, prefixPairs [][2]string, plainOnly bo
 	return g
 }
 
+// SetName binds a token to a real name that is only known at run time (a
+// temporary directory, a hash-named directory).
+func (g *Gamma) SetName(tok, real string) {
+	if old, ok := g.names[tok]; ok {
+		delete(g.inv, old)
+	}
+	g.names[tok] = real
+	g.inv[real] = tok
+}
+
 func (g *Gamma) Name(tok string) string {
 	if v, ok := g.names[tok]; ok {
 		return v
